@@ -170,7 +170,7 @@ def r1c_mt_precondition(rule, root=None):
     b = A.find_fn(OCT, "build_inner", self_ty="Octree", root=root)
     unwraps = [c for c in A.find(m["body"], "MethodCall") if c["method"] == "unwrap" and txt(c["recv"]).endswith(".cell.index")]
     t = txt(m["body"])
-    loop_runs = "whiletodo.len()<target_count" in t and "lettarget_count=8usize.pow((settings.depthasu32)).min((threads.thread_count()*10));" in t
+    loop_runs = any(A.norm_cond(str(txt(A.strip(w["cond"])))) in ("todo.len()<target_count", "target_count>todo.len()") for w in A.find(m["body"], "While")) and "lettarget_count=8usize.pow((settings.depthasu32)).min((threads.thread_count()*10));" in t
     ifs = [i for i in A.find(b["body"], "If") if "build_inner_mt" in txt(i["then"])]
     guard = txt(ifs[0]["cond"]) if ifs else ""
     if not unwraps:
